@@ -71,7 +71,7 @@ func (s *Sel) guardTable() []guardEntry {
 		{name: "Process.done", field: s.FDone, lock: procMutex, strip: 1},
 		{name: "Process.started", field: s.FStarted, lock: procMutex, strip: 1},
 		{name: "ProcessLogBuffer.buffer", field: lb("buffer"), lock: lb("mx"), strip: 1},
-		{name: "ProcessLogBuffer.observers", field: lb("observers"), lock: lb("mx"), strip: 1},
+		{name: "ProcessLogBuffer.observers", field: lb("observers"), lock: lb("mx"), strip: 1, isMap: true},
 	}
 	return t
 }
@@ -223,6 +223,27 @@ func runC20(c *Ctx) {
 				c.Touch(f)
 				key := fmt.Sprintf("%s@%s:%s", g.name, p.FuncKey(f), kind)
 				record(key, p.InstrPos(in), held, fmt.Sprintf("%s of %s without %s held", map[string]string{"r": "read", "w": "write"}[kind], g.name, g.lock.Name()))
+				// a map header copied under the lock must also be used under it
+				if u, isU := in.(*ssa.UnOp); isU && g.isMap && held {
+					for _, ref := range *u.Referrers() {
+						use := false
+						switch r := ref.(type) {
+						case *ssa.Range, *ssa.Lookup, *ssa.MapUpdate:
+							use = true
+						case *ssa.Call:
+							if b, isB := r.Call.Value.(*ssa.Builtin); isB && (b.Name() == "delete" || b.Name() == "len") {
+								use = true
+							}
+						}
+						if !use {
+							continue
+						}
+						heldUse := ls.Holds(ref, g.lock, base)
+						if !heldUse {
+							record(fmt.Sprintf("%s@%s:use-outside-lock", g.name, p.FuncKey(f)), p.InstrPos(ref), false, fmt.Sprintf("%s is read into a local under %s but iterated/accessed after the lock was released (the local aliases the live map)", g.name, g.lock.Name()))
+						}
+					}
+				}
 			}
 			// calls of *types.Project methods on the runner's project that touch Processes
 			if call, ok := in.(*ssa.Call); ok {
@@ -271,6 +292,30 @@ func runC20(c *Ctx) {
 			}
 		}
 	}
+
+	// the launch happens inside the stateMtx critical section that publishes the running-class status
+	{
+		rL := c.Rule("launch-under-state-lock", "the call that launches the command is made with Process.stateMtx held by the function that stores the running-class status (a concurrent stop that sees Running therefore also sees the started command)")
+		launch := p.Deep(s.LaunchSite)
+		nL := 0
+		for _, f := range p.FuncsOfPkg("app") {
+			if len(DirectSites(f, StoreTo("Status", s.FStatus))) == 0 || f.Parent() != nil {
+				continue
+			}
+			AllInstrs(f, func(in ssa.Instruction) {
+				call, ok := in.(*ssa.Call)
+				if !ok || !launch.MayAt(call) {
+					return
+				}
+				nL++
+				c.Check(ls.Holds(in, s.FStateMtx, ""), rL, p.FuncKey(f), p.InstrPos(in), "launch under stateMtx", "the command is launched after stateMtx was released")
+			})
+		}
+		if nL == 0 {
+			c.Bad(rL, "none", "", "no function both publishes the running-class status and launches the command: the status becomes visible before the command exists, and a stop arriving in between dereferences a nil/unstarted command (crash) or signals a stale pid")
+		}
+	}
+	s.checkConsumerBeforeProducer(c, "consumer-before-subscription")
 
 	// ------------------------------------------------------------------ (2)
 	s.checkSendAfterClose(c, ls)
